@@ -824,6 +824,13 @@ class SubtypeVisitor(TypeVisitor[bool]):
                 return True
             if len(left.items) != len(right.items):
                 return False
+            if any(
+                isinstance(l, UnpackType) and not isinstance(r, UnpackType)
+                for l, r in zip(left.items, right.items)
+            ):
+                # A variadic item stands for any number of items, never for exactly one item
+                # of a fixed-length tuple (even if that item is 'object').
+                return False
             if any(not self._is_subtype(l, r) for l, r in zip(left.items, right.items)):
                 return False
             if is_named_instance(right.partial_fallback, "builtins.tuple"):
